@@ -1,5 +1,5 @@
 SPECIFICATION Spec
-CONSTANTS NLP = 3  MaxT = 2  TermTime = 1000000  Inf = 1000000  NoneNeg = 1
+CONSTANTS NLP = 2  MaxT = 3  TermTime = 1000000  Inf = 1000000  NoneNeg = 1
 INVARIANT VoteImpliesCommitted
 INVARIANT CounterSane
 CONSTRAINT Bounded
